@@ -34,6 +34,7 @@ OP_KINDS = [
     "nodes",
     "get_disconnected",
     "get_unknown",
+    "swap_matrices",
     "bad_setitem",
     "clear",
 ]
@@ -134,10 +135,16 @@ def _edge_matrix(rng, cls):
         return M
     if cls == "exact_rigid":
         return mx.hom(mx.rand_rotation(rng), mx.rand_translation(rng))
+    if cls == "mirror_float32":
+        # a mirrored rotation that went through single precision (what a file stores): orthonormal to 1e-7 only, determinant -1
+        R = mx.rand_rotation(rng) @ np.diag([1.0, -1.0, 1.0])
+        return mx.hom(R.astype(np.float32).astype(np.float64), np.round(mx.rand_translation(rng), 3))
+    if cls == "rigid_float32":
+        return mx.hom(mx.rand_rotation(rng).astype(np.float32).astype(np.float64), np.round(mx.rand_translation(rng), 3))
     return mx.make(rng, cls)
 
 
-EDGE_CLASSES = ["identity", "translation", "rigid", "similarity", "uniform_scale", "affine", "mirror", "near_identity"]
+EDGE_CLASSES = ["identity", "translation", "rigid", "similarity", "uniform_scale", "affine", "mirror", "near_identity", "mirror_float32", "rigid_float32"]
 
 
 def _gen_how(rng):
@@ -337,6 +344,26 @@ class C09(World):
                 if not pairs:
                     continue
                 op["pair"] = list(rng.choice(pairs))
+            elif kind == "swap_matrices":
+                # two edges exchange their matrices (or both take the first one's), nothing asked in between: the two updates
+                # change the graph even where a careless digest of its content would not
+                es = [(c, p_) for c, p_ in model.parent.items()]
+                if len(es) < 2:
+                    continue
+                (c1, p1), (c2, p2) = rng.sample(es, 2)
+                M1, M2 = np.array(model.mat[c1]), np.array(model.mat[c2])
+                if rng.random() < 0.5:
+                    M2 = M1.copy() if not np.allclose(M1, M2) else M2
+                    # both edges already equal: move both to one new matrix
+                    if np.allclose(np.array(model.mat[c1]), np.array(model.mat[c2])):
+                        M1 = M2 = _edge_matrix(rng, "rigid")
+                    first = {"op": "update", "rs": new_salt(), "to": c1, "frm": p1, "how": "matrix", "cls": "rigid", "matrix": M2.tolist(), "silent": True}
+                    second = {"op": "update", "rs": new_salt(), "to": c2, "frm": p2, "how": "matrix", "cls": "rigid", "matrix": M2.tolist()}
+                else:
+                    first = {"op": "update", "rs": new_salt(), "to": c1, "frm": p1, "how": "matrix", "cls": "rigid", "matrix": M2.tolist(), "silent": True}
+                    second = {"op": "update", "rs": new_salt(), "to": c2, "frm": p2, "how": "matrix", "cls": "rigid", "matrix": M1.tolist()}
+                op = first
+                extra.append(second)
             elif kind == "get_unknown":
                 # a question about a frame that is not in the graph (a typo, a frame removed earlier)
                 op["unknown"] = rng.choice(["nowhere", "zz", "a_1"] + [f for f in frames if f not in nodes and f != "world"][:2])
@@ -440,7 +467,10 @@ class C09(World):
             ctx.reach(*state, outcome)
             ctx.event(step, kind, outcome)
             # invariant after every op: base-connected nodes through graph.get
-            self._check_some(graph, model, op, ctx)
+            if op.get("silent"):
+                ctx.count("probe:update-without-a-query-after")
+            else:
+                self._check_some(graph, model, op, ctx)
         ctx.step = "final"
         self._final(graph, model, program, ctx)
         for i, (g_old, m_old) in enumerate(retired[:3]):
